@@ -11,11 +11,15 @@ INF = '18446744073709551615'
 MODES = {'Single': 0, 'AutoRestart': 1, 'FreeRunning': 2, 'EventCount': 3}
 
 
+INERT = set()
+
+
 def effects(path):
-    """state effects of a path: assignments (field, op, rhs), invocations, ignoring the derived MMIO mirror"""
+    """state effects of a path: assignments (field, op, rhs), invocations, ignoring the derived MMIO mirror and
+       observation-only counters (cases.observation_only_fields)"""
     out = []
     for e in path:
-        if e[0] == 'assign' and e[4] not in ('counter_high', 'counter_low'):
+        if e[0] == 'assign' and e[4] not in ('counter_high', 'counter_low') and e[4] not in INERT:
             out.append(('assign', e[4], e[2], e[3]))
         elif e[0] == 'invoke':
             out.append(('invoke', e[1]))
@@ -24,6 +28,11 @@ def effects(path):
 
 def run(ctx):
     F = ctx.F['functions']
+    from ..cases import observation_only_fields
+    INERT.clear()
+    INERT.update(observation_only_fields(ctx.F, T) - {'counter', 'pause', 'count_mode', 'start_low', 'start_high', 'scale'})
+    if INERT:
+        ctx.notes.append('observation-only fields of Timer ignored in effect comparisons: %s' % sorted(INERT))
     fns = {n: ctx.fn('%s::%s' % (T, s)) for n, s in (('Tick', 'Tick()'), ('Skip', 'Skip(unsigned long)'), ('GetMaxSkip', 'GetMaxSkip() const'),
                                                       ('TickEvent', 'TickEvent()'), ('Restart', 'Restart()'), ('UpdateMMIO', 'UpdateMMIO()'))}
     en = ctx.F['enums'].get('Teakra::Timer::CountMode')
